@@ -84,8 +84,11 @@ def judgeEtcdDone (st : St) (n : Nat) (i : Nat) (fl : Flight) (toks : List Strin
     let r := tokNat (toks.getD 0 "0")
     let failedKey := fl.failed && r == 0
     let wraps := count != 0 && r + count > W
+    -- the range handed out ends beyond the reserved batch (maxSeqId after the call): reqSteps = DefaultEtcdSteps + count wrapped
+    let beyond := count != 0 && !failedKey && r + count > implMax
     let msgs1 :=
-      if wraps then [specfail n "EtcdSequencer.NextFileId/counter-wraps-uint64" s!"key {r} count {count}: the range leaves the 64-bit key space and currentSeqId wraps"] else
+      if wraps then [specfail n "EtcdSequencer.NextFileId/counter-wraps-uint64" s!"key {r} count {count}: the range leaves the 64-bit key space and currentSeqId wraps"]
+      else if beyond then [specfail n "EtcdSequencer.NextFileId/counter-wraps-uint64" s!"[{r},+{count}) ends beyond the reserved batch end {implMax}: DefaultEtcdSteps+count wrapped"] else
       match clash st.elog r count with
       | some (.issue _ s _) =>
         if st.ewrapped then [specfail n "EtcdSequencer.NextFileId/counter-wraps-uint64" s!"[{r},+{count}) overlaps the earlier range at {s} after a uint64 wrap"]
@@ -106,7 +109,7 @@ def judgeEtcdDone (st : St) (n : Nat) (i : Nat) (fl : Flight) (toks : List Strin
         | none => [specfail n "EtcdSequencer/key-not-above-reported-max" s!"key {r} after report {seen}"]
       | _ => []
     ({ st with elog := .issue i r count :: st.elog, key0 := st.key0 || failedKey,
-               ewrapped := st.ewrapped || wraps || (count != 0 && r + count == W) },
+               ewrapped := st.ewrapped || wraps || beyond || (count != 0 && r + count == W) },
       msgs1 ++ msgs2 ++ [if failedKey then "COV etcd.key0" else "COV etcd.issue"])
 
 def parseRanges (toks : List String) : List (Nat × Nat) :=
